@@ -460,9 +460,9 @@ def gaugeMons (tag : String) (prev : List GRec) (real : List GRec) : List String
       | none => out
       | some p =>
         let paid := r.g.distributed - p.g.distributed
-        let ok := decide (0 ≤ r.g.deposit) && decide (0 ≤ paid) &&
-          (if r.g.triggered = p.g.triggered + 1 then decide (paid ≤ p.g.deposit) || decide (paid = 0)
-           else decide (r.g.triggered = p.g.triggered) && decide (paid = 0) && decide (r.g.deposit = p.g.deposit))
+        let ok := decide (0 ≤ r.g.deposit) && decide (0 ≤ paid) && (decide (paid ≤ p.g.deposit) || decide (paid = 0)) &&
+          decide (p.g.deposit - paid ≤ r.g.deposit) &&
+          (decide (r.g.triggered = p.g.triggered + 1) || (decide (r.g.triggered = p.g.triggered) && decide (r.g.deposit = p.g.deposit - paid)))
         if ok then out else out ++ [s!"MON\t{tag}\tsf_epoch_cap\tgauge={r.gid}"]
     else
     let cum := gaugeOk r.g &&
